@@ -9,6 +9,7 @@ pub fn generate(kind: &str, r: &mut Rng, i: u64) -> Vec<String> {
         "link-exact" => link_exact(r, i),
         "link-burst" => link_burst(r, i),
         "link-close" => link_close(r, i),
+        "link-forward" => link_forward(r, i),
         "hostile" => hostile(r, i),
         "wirepeer" => wirepeer(r, i),
         "fault-idle" => fault_workload(r, 99, None),
@@ -1060,6 +1061,93 @@ fn link_close(r: &mut Rng, _i: u64) -> Vec<String> {
         l.push(format!("recvany rz {rn} q"));
         l.push("settle".into());
     }
+    l.push("dropall".into());
+    l.push("settle".into());
+    l.push("end".into());
+    l
+}
+
+/// A port forwarder (`Receiver::forward`, as used by forwarded `rch::bin` channels) between two ports of one
+/// connection: A sends on p, B forwards p into q, A receives on q.  The downstream receiver reads little, closes
+/// gracefully at some point and drains; everything whose send on p completed must still arrive on q (C11 across
+/// a forwarder that is busy relaying when the close arrives).
+fn link_forward(r: &mut Rng, _i: u64) -> Vec<String> {
+    let c = gen_cfg(r);
+    let mut l = vec!["mode monitor".to_string()];
+    let fine = r.bool();
+    if fine {
+        l.push("fine".into());
+    }
+    l.extend(cfg_lines(&c));
+    l.push("start".into());
+    l.push("connect c0 A p".into());
+    l.push("accept a0 B p".into());
+    l.push("settle".into());
+    l.push("connect c1 B q".into());
+    l.push("accept a1 A q".into());
+    l.push("settle".into());
+    l.push("forward f B p q".into());
+    l.push("settle".into());
+    // sizes: A -> B uses B's receive side, B -> A uses A's
+    let (chunk, buf, maxdata) = (c.chunk[1], c.buf[1].min(c.buf[0]), c.maxdata[0].min(c.maxdata[1]));
+    let n = r.range(2, 9);
+    let close_at = r.below(n + 1);
+    let mut recvs = 0;
+    let mut closed = false;
+    for i in 0..n {
+        if i == close_at {
+            if recvs > 0 {
+                l.push("cancelcalls A q rx".into());
+                l.push("settle".into());
+            }
+            l.push("close clq A q".into());
+            closed = true;
+            match r.below(3) {
+                0 => l.push("settle".into()),
+                1 if fine => l.push(format!("yield {}", r.range(1, 30))),
+                _ => {}
+            }
+        }
+        let id = format!("s{i}");
+        if r.chance(1, 4) {
+            let parts = r.range(1, 3);
+            let ps: Vec<String> = (0..parts).map(|_| { let n = msg_len(r, chunk, buf, maxdata).min(40); payload(r, n) }).collect();
+            l.push(format!("chunks {id} A p {} end=finish", ps.join(",")));
+        } else {
+            let len = msg_len(r, chunk, buf, maxdata).min(3 * buf as usize).min(maxdata as usize);
+            l.push(format!("send {id} A p {}", payload(r, len)));
+        }
+        if fine && r.bool() {
+            l.push(format!("yield {}", r.range(1, 40)));
+        }
+        l.push("settle".into());
+        // the downstream receiver reads now and then (rarely before the close, so that the forwarder backs up)
+        if r.chance(if closed { 1 } else { 1 }, if closed { 2 } else { 4 }) {
+            recvs += 1;
+            l.push(format!("recvmsg r{recvs} A q"));
+            l.push("settle".into());
+        }
+        // one call per handle: a send still waiting for credits is dropped
+        l.push(format!("cancel {id}"));
+        l.push("settle".into());
+    }
+    if !closed {
+        if recvs > 0 {
+            l.push("cancelcalls A q rx".into());
+            l.push("settle".into());
+        }
+        l.push("close clq A q".into());
+        l.push("settle".into());
+    }
+    // the upstream sender goes away; the downstream receiver drains to end-of-stream
+    l.push("drop A p tx".into());
+    l.push("settle".into());
+    for _ in 0..(n + 4) {
+        recvs += 1;
+        l.push(format!("recvmsg r{recvs} A q"));
+        l.push("settle".into());
+    }
+    l.push("settle".into());
     l.push("dropall".into());
     l.push("settle".into());
     l.push("end".into());
